@@ -1399,7 +1399,16 @@ func (n *toDateEval) Eval(env Env) (types.Value, error) {
 	if err != nil {
 		return zeroValue(), err
 	}
-	return types.NewDatetimeFromMillis(lhs.Milliseconds() - (lhs.Milliseconds() % consts.MillisPerDay)), nil
+	// floor to the start of the day, also for datetimes before the epoch
+	rem := lhs.Milliseconds() % consts.MillisPerDay
+	if rem < 0 {
+		rem += consts.MillisPerDay
+	}
+	res, ok := checkedSubI64(types.Long(lhs.Milliseconds()), types.Long(rem))
+	if !ok {
+		return zeroValue(), fmt.Errorf("%w while attempting to compute toDate", errOverflow)
+	}
+	return types.NewDatetimeFromMillis(int64(res)), nil
 }
 
 type toTimeEval struct {
@@ -1415,7 +1424,12 @@ func (n *toTimeEval) Eval(env Env) (types.Value, error) {
 	if err != nil {
 		return zeroValue(), err
 	}
-	return types.NewDurationFromMillis(lhs.Milliseconds() % consts.MillisPerDay), nil
+	// time since the (floored) start of the day, always in [0, 1 day)
+	rem := lhs.Milliseconds() % consts.MillisPerDay
+	if rem < 0 {
+		rem += consts.MillisPerDay
+	}
+	return types.NewDurationFromMillis(rem), nil
 }
 
 type toMillisecondsEval struct {
